@@ -407,10 +407,11 @@ atom("fnptr", "plain", r"""
 typedef int (*PnCallback)(int);
 class PnFn {
 __published:
-  PnFn() : _cb(0) {}
+  PnFn() : cb_field(0), _cb(0) {}
   void set_cb(PnCallback cb) { _cb = cb; }
   PnCallback get_cb() const { return _cb; }
   int call(int v) const { return _cb ? _cb(v) : v; }
+  PnCallback cb_field;
 private:
   PnCallback _cb;
 };
